@@ -789,12 +789,12 @@ pub fn one_case(ctx: &Ctx, case: u64, l: &mut Local) {
             let fmt = *r.pick(&FMTS);
             // systematically: an otherwise fully valid KB-JWT (right key, typ, aud, nonce, sd_hash)
             // with exactly one member removed or replaced by another JSON type
-            if (case / 9) % 3 == 0 {
+            if (case / 9) % 6 == 0 {
                 let good_payload = json!({"iss": "https://issuer.example/A", "exp": api::now() + 3600, "cnf": {"jwk": keys::holder_jwk_json(Alg::ES256, 0)}, "a": 1});
                 let gjwt = api::sign_payload(Alg::ES256, 0, &good_payload, None);
                 let full = json!({"aud": "aud", "nonce": "n", "iat": api::now(), "sd_hash": model::digest_of(&format!("{gjwt}~"))});
-                for member in ["aud", "nonce", "iat", "sd_hash"] {
-                    for repl in [None, Some(json!(null)), Some(json!(5)), Some(json!(["x"])), Some(json!({"a": 1})), Some(json!(u64::MAX)), Some(json!(i64::MAX)), Some(json!(i64::MIN)), Some(json!(-1)), Some(json!(1.0e308)), Some(json!(9_007_199_254_740_993u64)), Some(json!(0)), Some(json!("")),
+                for member in ["aud", "nonce", "iat", "sd_hash", "exp", "nbf"] {
+                    for repl in [None, Some(json!(null)), Some(json!(5)), Some(json!(["x"])), Some(json!({"a": 1})), Some(json!(u64::MAX)), Some(json!(i64::MAX)), Some(json!(i64::MIN)), Some(json!(-1)), Some(json!(1.0e308)), Some(json!(9_007_199_254_740_993u64)), Some(json!(0)), Some(json!("")), Some(json!(1)), Some(json!(29)), Some(json!(30)), Some(json!(59)), Some(json!(61)),
                         // strings with as many CHARACTERS as a digest (43) but more bytes, and other non-ASCII
                         Some(json!(format!("{}\u{e9}", "A".repeat(42)))), Some(json!("\u{1f600}".repeat(43))), Some(json!(format!("\u{e9}{}", "A".repeat(42)))), Some(json!("\u{0}".repeat(43))), Some(json!("A".repeat(44))), Some(json!("A".repeat(42)))] {
                         let mut pl = full.clone();
